@@ -40,6 +40,8 @@ pub const CIRCLES_TO_SKIP_FOR_ARC: usize = 3;
 /// )
 static CIRCLE_ART_MAP: Lazy<Vec<(&'static str, Horizontal, f32, f32, Cell)>> =
     Lazy::new(|| {
+        #[cfg(feature = "verif")]
+        crate::verif::init("CIRCLE_ART_MAP");
         vec![
             // CIRCLE_0
             //center 1,0,k, radius = 0.5
@@ -637,6 +639,8 @@ pub struct ArcSpans {
 }
 
 static CIRCLE_MAP: Lazy<Vec<CircleArt>> = Lazy::new(|| {
+    #[cfg(feature = "verif")]
+    crate::verif::init("CIRCLE_MAP");
     Vec::from_iter(CIRCLE_ART_MAP.iter().enumerate().map(
         |(
             ndx,
@@ -655,6 +659,8 @@ static CIRCLE_MAP: Lazy<Vec<CircleArt>> = Lazy::new(|| {
 /// The fragments for each of the circle
 /// Calculate the span and get the group fragments
 static FRAGMENTS_CIRCLE: Lazy<Vec<(Vec<Contacts>, Circle)>> = Lazy::new(|| {
+    #[cfg(feature = "verif")]
+    crate::verif::init("FRAGMENTS_CIRCLE");
     Vec::from_iter(CIRCLE_MAP.iter().map(|circle_art| {
         (
             circle_art_to_group(circle_art.ascii_art),
@@ -666,6 +672,8 @@ static FRAGMENTS_CIRCLE: Lazy<Vec<(Vec<Contacts>, Circle)>> = Lazy::new(|| {
 /// map of circle spans and their radius
 pub static DIAMETER_CIRCLE: Lazy<HashMap<i32, (Point, Span)>> =
     Lazy::new(|| {
+        #[cfg(feature = "verif")]
+        crate::verif::init("DIAMETER_CIRCLE");
         HashMap::from_iter(CIRCLE_MAP.iter().map(|circle_art| {
             let cb = CellBuffer::from(circle_art.ascii_art);
             let mut spans= Vec::<Span>::from(&cb);
@@ -677,6 +685,8 @@ pub static DIAMETER_CIRCLE: Lazy<HashMap<i32, (Point, Span)>> =
 
 /// There is only 1 span per circle, and localized
 pub static CIRCLES_SPAN: Lazy<IndexMap<Circle, Span>> = Lazy::new(|| {
+    #[cfg(feature = "verif")]
+    crate::verif::init("CIRCLES_SPAN");
     IndexMap::from_iter(CIRCLE_MAP.iter().map(|circle_art| {
         let cb = CellBuffer::from(circle_art.ascii_art);
         let mut spans =  Vec::<Span>::from(&cb);
@@ -701,6 +711,8 @@ pub static CIRCLES_SPAN: Lazy<IndexMap<Circle, Span>> = Lazy::new(|| {
 ///
 /// (diameter, quarter arcs)
 pub static QUARTER_ARC_SPAN: Lazy<BTreeMap<i32, ArcSpans>> = Lazy::new(|| {
+    #[cfg(feature = "verif")]
+    crate::verif::init("QUARTER_ARC_SPAN");
     BTreeMap::from_iter(CIRCLE_MAP.iter().skip(CIRCLES_TO_SKIP_FOR_ARC).map(
         |circle_art| {
             let span = circle_art_to_span(circle_art.ascii_art);
@@ -779,6 +791,8 @@ pub static QUARTER_ARC_SPAN: Lazy<BTreeMap<i32, ArcSpans>> = Lazy::new(|| {
 });
 
 pub static HALF_ARC_SPAN: Lazy<BTreeMap<i32, ArcSpans>> = Lazy::new(|| {
+    #[cfg(feature = "verif")]
+    crate::verif::init("HALF_ARC_SPAN");
     BTreeMap::from_iter(CIRCLE_MAP.iter().skip(CIRCLES_TO_SKIP_FOR_ARC).map(
         |circle_art| {
             let span = circle_art_to_span(circle_art.ascii_art);
@@ -878,6 +892,8 @@ pub static HALF_ARC_SPAN: Lazy<BTreeMap<i32, ArcSpans>> = Lazy::new(|| {
 
 pub static THREE_QUARTERS_ARC_SPAN: Lazy<BTreeMap<i32, ArcSpans>> =
     Lazy::new(|| {
+        #[cfg(feature = "verif")]
+        crate::verif::init("THREE_QUARTERS_ARC_SPAN");
         BTreeMap::from_iter(
             CIRCLE_MAP
                 .iter()
@@ -975,6 +991,8 @@ pub static THREE_QUARTERS_ARC_SPAN: Lazy<BTreeMap<i32, ArcSpans>> =
 pub static FLATTENED_QUARTER_ARC_SPAN: Lazy<
     BTreeMap<DiameterArc, (Arc, Span)>,
 > = Lazy::new(|| {
+    #[cfg(feature = "verif")]
+    crate::verif::init("FLATTENED_QUARTER_ARC_SPAN");
     BTreeMap::from_iter(QUARTER_ARC_SPAN.iter().flat_map(
         |(diameter, arc_spans)| {
             arc_spans.arc_spans.iter().enumerate().map(
@@ -994,6 +1012,8 @@ pub static FLATTENED_QUARTER_ARC_SPAN: Lazy<
 
 pub static FLATTENED_HALF_ARC_SPAN: Lazy<BTreeMap<DiameterArc, (Arc, Span)>> =
     Lazy::new(|| {
+        #[cfg(feature = "verif")]
+        crate::verif::init("FLATTENED_HALF_ARC_SPAN");
         BTreeMap::from_iter(HALF_ARC_SPAN.iter().flat_map(
             |(diameter, arc_spans)| {
                 arc_spans.arc_spans.iter().enumerate().map(
@@ -1014,6 +1034,8 @@ pub static FLATTENED_HALF_ARC_SPAN: Lazy<BTreeMap<DiameterArc, (Arc, Span)>> =
 pub static FLATTENED_THREE_QUARTERS_ARC_SPAN: Lazy<
     BTreeMap<DiameterArc, (Arc, Span)>,
 > = Lazy::new(|| {
+    #[cfg(feature = "verif")]
+    crate::verif::init("FLATTENED_THREE_QUARTERS_ARC_SPAN");
     BTreeMap::from_iter(THREE_QUARTERS_ARC_SPAN.iter().flat_map(
         |(diameter, arc_spans)| {
             arc_spans.arc_spans.iter().enumerate().map(
